@@ -80,6 +80,10 @@ def judge(case):
         line = pipeline + " ; vp_snap $?"
     else:
         line = pipeline
+    if case.get("prelude"):
+        # earlier commands of the same shell (builtins run in the shell process, a failing command, a pipeline):
+        # whatever state they leave behind must not reach the pipeline under test
+        line = case["prelude"] + " ; " + line
     if case.get("bg_before"):
         # a background job started earlier ends while the pipeline is still running
         line = "vp_job BG %s @bg & ; " % case["bg_before"] + line
@@ -289,6 +293,19 @@ def gen_cases(tier, seed):
         c = dict(mk(st), cls="bg-overlap")
         c["bg_before"] = rng.choice(["0.05", "0.1", "0.2"])
         cases.append(c)
+    # 4c. the pipeline is not the first thing the shell does
+    PRELUDES = ["alias", "alias zq=vp_a ; alias", "cd .", "jobs", "export VPX=1", "unalias nosuchalias", "alias nosuchalias",
+                "vp_status 3 @pre", "vp_nonexistent_cmd", "history", "alias | vp_st snk @pre", "VPY=1", "alias > /dev/null"]
+    for _ in range(600 if thorough else 70):
+        n = rng.choice([1, 2, 3, 4])
+        order = list(range(n))
+        rng.shuffle(order)
+        st = clean_pipeline(n, rng.choice([0, 4096, 70000, 1 << 20]), rng.randrange(1, 10 ** 6), order, step=20)
+        if n > 1 and rng.random() < 0.5:
+            st[-1] = {"kind": "noread", "linger": rng.choice([None, 0, 30])}
+        c = dict(mk(st), cls="after-prelude")
+        c["prelude"] = rng.choice(PRELUDES)
+        cases.append(c)
     # 5. a non-last stage killed by a signal mid-pipeline (after it did its work)
     for _ in range(200 if thorough else 40):
         n = rng.choice([2, 3, 4])
@@ -315,7 +332,9 @@ def run(tier, seed):
     rep.rule = ("pipelines of 1..6 instrumented stages: all finishing orders for n<=4 (forced by per-stage "
                 "linger after closing stdio) x payloads 0..1MiB, random orders for n=5..6, last-stage exit "
                 "codes and terminating signals, non-reading/failing/not-found/builtin stages in every position, "
-                "mid-pipeline signal deaths.  Non-trivial = at least two stages or a non-zero status; distinct by "
+                "mid-pipeline signal deaths, an earlier background job ending meanwhile, and pipelines run after other commands of "
+                "the same shell (in-process builtins with and without output, failing and unknown commands); every stage's inherited "
+                "SIGPIPE disposition is read at its start.  Non-trivial = at least two stages or a non-zero status; distinct by "
                 "the full stage list + form.")
     rep.assumptions = ["stage helpers are trusted to count/hash what they read and write",
                        "a watchdog hit is a violation only when every live process of the tree is asleep with "
